@@ -183,11 +183,11 @@ func findSegMetaFromTime(a *asset, rep *RepData, time uint64, cfg *ResponseConfi
 	timeAfterWrap := int(time) - wrapTime
 	idx := rep.findSegmentIndexFromTime(uint64(timeAfterWrap))
 	if idx == len(rep.Segments) {
-		return segMeta{}, fmt.Errorf("no matching segment")
+		return segMeta{}, fmt.Errorf("no matching segment: %w", errNotFound)
 	}
 	seg := rep.Segments[idx]
 	if seg.StartTime != uint64(timeAfterWrap) {
-		return segMeta{}, fmt.Errorf("segment time mismatch %d <-> %d", timeAfterWrap, seg.StartTime)
+		return segMeta{}, fmt.Errorf("segment time mismatch %d <-> %d: %w", timeAfterWrap, seg.StartTime, errNotFound)
 	}
 
 	// Check interval validity
@@ -218,7 +218,7 @@ func findRefSegMetaFromTime(a *asset, rep *RepData, time uint64, cfg *ResponseCo
 	}
 	sampleDur := *rep.ConstantSampleDuration
 	if time%uint64(sampleDur) != 0 {
-		return sm, fmt.Errorf("time must be multiple of sample duration")
+		return sm, fmt.Errorf("time must be multiple of sample duration: %w", errNotFound)
 	}
 	refRep := a.refRep
 	refTotDur := uint64(refRep.duration())
